@@ -564,6 +564,28 @@ def check_containment(ctx):
                 ok = not rebinds
             ctx.check("C15-b", ok, c, "the predicate is applied to `%s`, not to the addressed sub-context"
                       % ", ".join(A.src(a) for a in c.args), detail="predicate(sub-context)", construct="predicate-arg")
+    # contract between SelectContext and the helper it relies on: whatever makes the addressed item *absent* -- a missing key
+    # or a scalar met on the way -- leaves get_recursively (called without default) as LenaKeyError, the only class
+    # SelectContext turns into False; the argument checks that precede the traversal may raise other Lena classes
+    gr = ctx.tree.func("lena.context.functions", "get_recursively")
+    keysp = A.func_params(gr)[1]
+    trav = [l for l in gr.body if isinstance(l, ast.For) and A.root_name(l.iter) == keysp]
+    if ctx.require(len(trav) == 1, "C15-b", gr, "get_recursively: the traversal loop over the keys was not found"):
+        n_abs = 0
+        for p in P.paths_of(gr):
+            if p.end != "raise":
+                continue
+            started = any(e[0] in ("iter", "loop0") and e[1] is trav[0] for e in p.ev)
+            if not started:
+                continue
+            r = [x for x in p.stmts() if isinstance(x, ast.Raise)][-1]
+            ex = r.exc.func if isinstance(r.exc, ast.Call) else r.exc
+            n_abs += 1
+            ctx.check("C15-b", ex is not None and res.canon(ex) == EXC + "LenaKeyError", r, "get_recursively raises `%s` for an item that is "
+                      "absent on the path [%s]: SelectContext only takes LenaKeyError for 'absent' and answers False; any other class "
+                      "propagates through the selector (also with raise_on_error=False) and through Filter" % (A.short(ex, 40), p.describe(4)),
+                      detail="absent item -> LenaKeyError [%s]" % p.describe(2), construct="absent-raises:%s" % A.short(ex, 40), path=p)
+        ctx.instances_floor("C15-b/absent", n_abs, 2, "raising paths of get_recursively inside or after the key traversal")
     # who may write _raise_on_error
     n = 0
     mod = ctx.tree.module(SEL)
@@ -1242,6 +1264,7 @@ IETF = "lena/context/include_exclude_tree.py"
 GBF = "lena/flow/group_by.py"
 FLT = "lena/flow/filter.py"
 VARIANTS = [
+    M("lookup-scalar-typeerror", "lena/context/functions.py", "        elif has_default:\n            return default\n        else:\n            raise LenaKeyError(\n                \"nested dict {} not found in {}\".format(key, d)", "        elif has_default:\n            return default\n        elif key in d:\n            raise LenaTypeError(\n                \"need a dictionary, {} provided\".format(d[key])\n            )\n        else:\n            raise LenaKeyError(\n                \"nested dict {} not found in {}\".format(key, d)", ["C15-b"]),
     # dispatch
     M("callable-before-class", SELF, "        if inspect.isclass(selector):\n            self._selector = lambda val: isinstance(\n                lena.flow.get_data(val), selector\n            )\n            try:\n                self._selector_repr = selector.__name__\n            except AttributeError:\n                # todo: add a test where that can happen.\n                pass\n            self._orig_class = selector\n        elif callable(selector):",
       "        if callable(selector) and not isinstance(selector, type):\n            self._selector = selector\n            self._from_callable = True\n        elif inspect.isclass(selector):\n            self._selector = lambda val: isinstance(\n                lena.flow.get_data(val), selector\n            )\n            self._orig_class = selector\n        elif callable(selector):", ["C15-a"]),
